@@ -42,8 +42,9 @@ type Prog struct {
 	noret   map[*ssa.Function]bool
 	noretOK bool
 
-	cg    *callgraph.Graph
-	cgCHA *callgraph.Graph
+	cg     *callgraph.Graph
+	raises map[*ssa.Function]bool
+	cgCHA  *callgraph.Graph
 
 	GOOS, GOARCH string
 }
@@ -169,7 +170,7 @@ func (p *Prog) Fn(pkg, name string) *ssa.Function {
 }
 
 func (p *Prog) Pkg(pkg string) *packages.Package { return p.Pkgs[short(pkg)] }
-func (p *Prog) SPkg(pkg string) *ssa.Package    { return p.SPkgs[short(pkg)] }
+func (p *Prog) SPkg(pkg string) *ssa.Package     { return p.SPkgs[short(pkg)] }
 
 // Obj looks up a package-level object.
 func (p *Prog) Obj(pkg, name string) types.Object {
